@@ -139,9 +139,11 @@ revalidations: every answer is justified —
 * a relayed 304 means the same against the origin's current version, or against the (coherently) updated cached response;
 * a 412 means If-Match fails against the cached response (hit) or against the origin's current version (forwarded);
 and the cache stays coherent —
-provided that at every step (`CleanRun`) (1) the origin's 304 carries no Content-Length, (2) a 304 that revalidates the
-stale entry carries the stored entity-tag, (3) a request with If-Match does not meet a failed revalidation.
-The full statement (without the three exclusions) is false of the real code: see the three counterexamples below. -/
+provided that at every step (`CleanRun`) (1) a 304 that revalidates the stale entry carries the stored entity-tag, (2) a
+request with If-Match does not meet a failed revalidation. The origin's 304 may carry any Content-Length: since /repo commit
+c3c036b `skipUpdateHeader` exempts it (the exemption is read from the source every run; `content_length_pre_fix` below is the
+old failure, conditional on the old table). The full statement (without the two exclusions) is false of the real code: see
+the two counterexamples below. -/
 theorem history_sound_partial (vers : List Ver) (hv : VersOk vers) (steps : List Step) (i : Nat) (s : Option Entry)
     (hok : ∀ st ∈ steps, StepOk st) (hs : StateOk vers s) (hc : CleanRun vers i steps s) :
     JustifiedRun vers i steps s ∧ StateOk vers (finalState vers i steps s) :=
@@ -153,7 +155,7 @@ theorem step_sound_partial (vers : List Ver) (hv : VersOk vers) (i : Nat) (st : 
     Justified vers st s (step vers i st s).2.1 ∧ StateOk vers (step vers i st s).1 :=
   step_ok hv i hok hs hc
 
-/-- Excluded region (2), reproduced on the real binary (finding C14-304-foreign-validator): the cache holds version 0
+/-- Excluded region (1), reproduced on the real binary (finding C14-304-foreign-validator): the cache holds version 0
 (`"a"`), now stale; the origin has moved to version 1 (`"b"`); the client asks `If-None-Match: "b"`. The origin's 304
 (for `"b"`) is merged into the stale entry: the client gets 200 with the body of version 0 under ETag `"b"` and
 version 1's Last-Modified, and so does every later hit. -/
@@ -169,9 +171,10 @@ theorem foreign_validator_counterexample :
        .full ⟨some [34, 98, 34], some 2000, true, 0, 1, none⟩ false] := by
   decide +kernel
 
-/-- Excluded region (1) (finding C14-304-content-length): a revalidation answered `304` + `Content-Length: 0` leaves an
-entry whose stored Content-Length is 0: that answer and every later hit deliver no body (the driver prints `-`). -/
-theorem content_length_counterexample :
+/-- About the table before /repo c3c036b only (finding C14-304-content-length, fixed): if `skipUpdateHeader` does not exempt
+Content-Length, a revalidation answered `304` + `Content-Length: 0` leaves an entry whose stored Content-Length is 0: that
+answer and every later hit deliver no body. With the current table the hypothesis is false. -/
+theorem content_length_pre_fix :
     skipsUpdate "CONTENT_LENGTH" = false →
     let vers : List Ver := [⟨some [34, 97, 34], some 1000⟩]
     let steps : List Step := [
@@ -184,7 +187,21 @@ theorem content_length_counterexample :
        .full ⟨some [34, 97, 34], some 1000, true, 0, 1, some 0⟩ false] := by
   decide +kernel
 
-/-- Excluded region (3) (finding C14-ifmatch-stale-if-error): stale `"a"`, request `If-Match: "b"`, the origin answers 500:
+/-- With the current table the same history is harmless: the stored Content-Length survives the 304 (regression form of the
+fixed finding; the corpus witness must pass). -/
+theorem content_length_304_ignored :
+    let vers : List Ver := [⟨some [34, 97, 34], some 1000⟩]
+    let steps : List Step := [
+      ⟨.get, none, none, .none, 0, .ref, false⟩,
+      ⟨.get, none, none, .none, 0, .cl 0, true⟩,
+      ⟨.get, none, none, .none, 0, .ref, true⟩]
+    (run vers 0 steps none).map (·.1) =
+      [.full ⟨some [34, 97, 34], some 1000, false, 0, 0, none⟩ false,
+       .full ⟨some [34, 97, 34], some 1000, true, 0, 1, none⟩ false,
+       .full ⟨some [34, 97, 34], some 1000, true, 0, 1, none⟩ false] := by
+  decide +kernel
+
+/-- Excluded region (2) (finding C14-ifmatch-stale-if-error): stale `"a"`, request `If-Match: "b"`, the origin answers 500:
 the old entry is sent as 200 although If-Match fails for it. -/
 theorem if_match_stale_if_error_counterexample :
     let vers : List Ver := [⟨some [34, 97, 34], some 1000⟩]
@@ -247,18 +264,18 @@ theorem stored_body_unchanged (s : Stored) (fresh : List Field) : (s.on304 fresh
   unfold Stored.on304
   split <;> rfl
 
-/-- …and the body a later hit *delivers* is unchanged provided the 304 carries no Content-Length (full statement, without
-the hypothesis, is false of the real code: see `served_body_changed_counterexample`). -/
-theorem served_body_unchanged_partial (s : Stored) (fresh : List Field)
-    (hno : hasId fresh "CONTENT_LENGTH" = false) : (s.on304 fresh).servedBody = s.servedBody := by
+/-- …and the body a later hit *delivers* is unchanged, whatever the 304 carries (after_304_headers_updated_body_same): the
+stored Content-Length is exempt from the update (`skipUpdateHeader`, /repo c3c036b; read from the source every run). -/
+theorem served_body_unchanged (s : Stored) (fresh : List Field) : (s.on304 fresh).servedBody = s.servedBody := by
+  have hskip : skipUpdate "CONTENT_LENGTH" = true := by decide
   unfold Stored.on304
   split
-  · simp only [Stored.servedBody, Stored.contentLength, unnamed_headers_unchanged _ _ _ hno]
+  · simp only [Stored.servedBody, Stored.contentLength, exempt_headers_unchanged _ _ _ hskip]
   · rfl
 
-/-- A 304 that carries `Content-Length: 0` (many servers send it) rewrites the stored Content-Length, and later hits deliver
-an empty body although five bytes are stored — unless `skipUpdateHeader` exempts Content-Length. -/
-theorem served_body_changed_counterexample :
+/-- About the table before /repo c3c036b only: if Content-Length is not exempt, a 304 carrying `Content-Length: 0` (many
+servers send it) rewrites the stored Content-Length and later hits deliver an empty body although five bytes are stored. -/
+theorem served_body_changed_pre_fix :
     skipUpdate "CONTENT_LENGTH" = false →
     let s : Stored := ⟨[⟨"ETAG", [34, 97, 34]⟩, ⟨"CONTENT_LENGTH", [53]⟩], [66, 79, 68, 89, 49]⟩
     let fresh : List Field := [⟨"ETAG", [34, 97, 34]⟩, ⟨"CONTENT_LENGTH", [48]⟩]
@@ -272,7 +289,7 @@ example : hitAnswer ⟨200, some [34, 97, 34], some 5, 9⟩ ⟨.get, some [[34, 
 example : hitAnswer ⟨200, some [34, 97, 34], some 5, 9⟩ ⟨.get, none, some [[87, 47, 34, 97, 34]], none, false⟩ = .preconditionFailed := by decide
 example : hitAnswer ⟨200, some [34, 97, 34], some 5, 9⟩ ⟨.get, none, none, some 5, false⟩ = .notModified := by decide
 example : hitAnswer ⟨200, some [34, 97, 34], some 5, 9⟩ ⟨.get, none, none, some 4, false⟩ = .hit := by decide
-example : skipUpdate "VARY" = true ∧ skipUpdate "ETAG" = false := by decide
+example : skipUpdate "VARY" = true ∧ skipUpdate "CONTENT_LENGTH" = true ∧ skipUpdate "ETAG" = false := by decide
 -- the hypotheses of the reference theorems are satisfiable: `"a", W/"b" , *` is a well-formed list with three elements
 example : Renders ([34, 97, 34] ++ ([] ++ comma :: ([32] ++ ([87, 47, 34, 98, 34] ++ ([32] ++ comma :: ([] ++ [star]))))))
     [.tag false [97], .tag true [98], .star] :=
@@ -286,8 +303,8 @@ example : Ref.elements [[34, 97, 92, 34, 44, 32, 34, 98, 34]] = [[34, 97, 92, 34
 -- a clean history exists (miss, hit with a matching validator, revalidation with the same version)
 example : CleanRun [⟨some [34, 97, 34], some 1000⟩] 0
     [⟨.get, none, none, .none, 0, .ref, false⟩, ⟨.get, none, none, .time 1000, 0, .ref, true⟩] none := by
-  refine ⟨⟨(by intro n; simp), (by intro e k cl h; cases h), (by intro e h; cases h)⟩,
-    ⟨(by intro n; simp), ?_, (by intro e _ _ h; cases h)⟩, trivial⟩
+  refine ⟨⟨(by intro e k cl h; cases h), (by intro e h; cases h)⟩,
+    ⟨?_, (by intro e _ _ h; cases h)⟩, trivial⟩
   intro e k cl hs _ hr
   have hs' : e = ⟨some [34, 97, 34], some 1000, false, 0, 0, none⟩ := by
     have : (step [⟨some [34, 97, 34], some 1000⟩] 0 ⟨.get, none, none, .none, 0, .ref, false⟩ none).1
